@@ -8,7 +8,10 @@ proof  : lean/Pyunicorn/Properties/C14.lean (kernel loops = chord / horizontal
          round 3: betweenness-type measures under reversal, float kernel subgraph of the
          exact graph, order invariance of the horizontal graph, loop bounds from the source;
          round 4: rndF32 = binary32 round-to-nearest-even, monotone, scale-covariant; pathLen =
-         breadth-first search of C03's model; horizontal graph of float64 callers' data)
+         breadth-first search of C03's model; horizontal graph of float64 callers' data;
+         round 5: the float32 kernels and the constructor in FIELD arithmetic (classLogR) are
+         invariant under power-of-two rescalings without underflow, small integer series are
+         order-faithful, the compiled constructor = the exact constructor on the stored data)
 tie    : exact correspondence of the Lean model (lean/Pyunicorn/Model/Visibility.lean)
          with the compiled kernels at the kernel boundary and with
          `VisibilityGraph` at the object level, on data whose float32 slope
@@ -839,6 +842,11 @@ def run(ctx):
                 "differences (float links subset of exact links), generic float64 data for the horizontal graph; "
                 "round 4: rndF32 against the machine's binary32 conversion / subtraction / division (ties, exponent "
                 "boundaries, subnormals), path_lengths() matrices (N <= 14, connected and disconnected); "
+                "round 5: both natural kernels on series rescaled by 2^a, 2^c up to the edges of the binary32 range "
+                "(small integer series up to |x| = 2^22/n incl. steep nearly collinear ramps, dyadic, generic and "
+                "nearly collinear float32 data, scalings into the subnormal range), VisibilityGraph on float64 callers' "
+                "series and timings that are not binary32 numbers (doubles over 2^+-30, thirds, ramps, ties, NaN; all "
+                "flag combinations) and the same objects in other power-of-two units; "
                 "distinct = distinct (request); non-trivial = at least 3 samples, not all equal")
     ctx.trusted = common.DEFAULT_TRUSTED + [
         "float32: kernelNR rndF32 (differences and quotient rounded to binary32, RNE, no overflow) is "
